@@ -765,8 +765,8 @@ func extraClass(n int) string {
 		return "extra=1-249"
 	case n < 255:
 		return "extra=250-254"
-	case n == 255:
-		return "extra=255"
+	case n%256 == 255:
+		return "extra=255 mod 256"
 	default:
 		return "extra>=256"
 	}
